@@ -18,6 +18,7 @@ import (
 	"path/filepath"
 	"sort"
 	"strings"
+	"sync"
 	"time"
 
 	"github.com/drand/drand/v2/common"
@@ -174,7 +175,8 @@ func (f fload) coq() string {
 // obs is what fresh objects load from one snapshot.
 type obs struct {
 	rounds   []uint64
-	resumed  bool // a fresh append store accepted round last+1
+	sigOf    map[uint64]int64 // round -> signature id of the reloaded beacon
+	resumed  bool             // a fresh append store accepted round last+1
 	fin, cur *drec
 	finWhole bool
 	group    fload
@@ -215,15 +217,74 @@ type node struct {
 	attHead     string
 	attOffered  []string
 	attAccepted []string
+	// what left the node: beacons the callback registered on the real callback store received
+	mu              sync.Mutex
+	servedLog       []servedRec
+	events          []string // committed writes and hand-overs in the order they happened (Coq cbev terms)
+	putLog          []string // human-readable list of the Puts offered so far, with their outcome
+	injectErr       bool     // the next write of the underlying store fails
+	failedPutServed []string
+}
+
+type servedRec struct {
+	Round uint64 `json:"round"`
+	Sig   int64  `json:"signature_id"`
+}
+
+var errInjected = errors.New("injected write failure")
+
+// cpStore sits between the scheme store and the bolt store: its Put entry is the crash point
+// INSIDE callbackStore.Put / appendStore.Put, before the bolt transaction of the beacon.
+type cpStore struct {
+	chain.Store
+	n *node
+}
+
+func (c *cpStore) Put(ctx context.Context, b *common.Beacon) error {
+	n := c.n
+	// a hand-over made before this write reaches the callback's worker within this time
+	n.waitServed(n.servedCount()+1, 150*time.Millisecond)
+	n.snap(fmt.Sprintf("inside-put-%d", b.Round), "inside-put", "")
+	if n.injectErr {
+		n.injectErr = false
+		return errInjected
+	}
+	err := c.Store.Put(ctx, b)
+	if err == nil {
+		n.mu.Lock()
+		n.events = append(n.events, fmt.Sprintf("CWrite (mkB %d %d 0)", b.Round, n.w.sigID(b.Signature)))
+		n.mu.Unlock()
+	}
+	return err
+}
+
+func (n *node) servedCount() int {
+	n.mu.Lock()
+	defer n.mu.Unlock()
+	return len(n.servedLog)
+}
+
+// waitServed waits until the callback has received at least k beacons, or the time is over.
+func (n *node) waitServed(k int, d time.Duration) bool {
+	deadline := time.Now().Add(d)
+	for n.servedCount() < k {
+		if time.Now().After(deadline) {
+			return false
+		}
+		time.Sleep(time.Millisecond)
+	}
+	return true
 }
 
 type snapshot struct {
 	name   string
 	dir    string
 	run    []string
-	cp     string // Coq crash point
-	kind   string // after | before-write | torn | half-reset
-	expect string // class the model predicts for this point ("" = consistent)
+	cp     string      // Coq crash point
+	kind   string      // after | before-write | torn | half-reset
+	expect string      // class the model predicts for this point ("" = consistent)
+	served []servedRec // what the callback had received when the snapshot was taken
+	puts   []string    // the Puts offered up to then
 }
 
 // recStore wraps the real file key store; every mutating call is followed by a snapshot.
@@ -342,6 +403,10 @@ func (n *node) snap(name, kind, expect string) *snapshot {
 		panic(err)
 	}
 	s := &snapshot{name: name, dir: d, run: append([]string{}, n.ops...), cp: fmt.Sprintf("(CAfter %d)", len(n.ops)), kind: kind, expect: expect}
+	n.mu.Lock()
+	s.served = append([]servedRec{}, n.servedLog...)
+	s.puts = append([]string{}, n.putLog...)
+	n.mu.Unlock()
 	n.snaps = append(n.snaps, s)
 	return s
 }
@@ -455,6 +520,10 @@ func (w *world) reload(s *snapshot, root string) (obs, error) {
 	err = st.Cursor(ctx, func(ctx context.Context, c chain.Cursor) error {
 		for b, err := c.First(ctx); err == nil && b != nil; b, err = c.Next(ctx) {
 			o.rounds = append(o.rounds, b.Round)
+			if o.sigOf == nil {
+				o.sigOf = map[uint64]int64{}
+			}
+			o.sigOf[b.Round] = w.sigID(b.Signature)
 			lastB = b
 		}
 		return nil
@@ -586,43 +655,91 @@ func (n *node) saveFinished(st *dkg.DBState, d drec, txs *[]int64) error {
 }
 
 // put sends one beacon through the real append/scheme store stack over the bolt store.
-func (n *node) put(b *common.Beacon, txs *[]int64) (bool, error) {
+func (n *node) put(b *common.Beacon, txs *[]int64, fault bool) (bool, error) {
 	ctx := context.Background()
 	if n.app == nil {
-		ss, err := beacon.NewSchemeStore(ctx, n.raw, n.w.sch)
+		// the store stack of a running node (chainstore.go), on the real bolt store:
+		// callbackStore(appendStore(schemeStore([crash point] bolt))), with one subscriber registered
+		// the way PublicRandStream / SyncChain register theirs
+		ss, err := beacon.NewSchemeStore(ctx, &cpStore{Store: n.raw, n: n}, n.w.sch)
 		if err != nil {
 			return false, err
 		}
-		if n.app, err = beacon.VerifCrashNewAppendStore(ctx, ss); err != nil {
+		as, err := beacon.VerifCrashNewAppendStore(ctx, ss)
+		if err != nil {
 			return false, err
 		}
+		cbs := beacon.NewCallbackStore(n.w.log, as)
+		cbs.AddCallback("verif-stream-client", func(sb *common.Beacon, closed bool) {
+			if closed || sb == nil {
+				return
+			}
+			n.mu.Lock()
+			id := n.w.sigID(sb.Signature)
+			n.servedLog = append(n.servedLog, servedRec{sb.Round, id})
+			n.events = append(n.events, fmt.Sprintf("CServe (mkB %d %d 0)", sb.Round, id))
+			n.mu.Unlock()
+		})
+		n.app = cbs
 	}
 	bterm := func(x *common.Beacon) string {
+		n.mu.Lock()
+		defer n.mu.Unlock()
 		prev := n.w.sigID(x.PreviousSig)
 		return fmt.Sprintf("(mkB %d %d %d)", x.Round, n.w.sigID(x.Signature), prev)
 	}
 	if n.attHead == "" {
 		n.attHead = bterm(n.last)
 	}
-	n.attOffered = append(n.attOffered, bterm(b))
+	desc := bterm(b)
+	if fault {
+		n.injectErr = true // an environment fault, not part of the model's Put list
+	} else {
+		n.attOffered = append(n.attOffered, desc)
+	}
+	n.mu.Lock()
+	n.putLog = append(n.putLog, fmt.Sprintf("Put round %d %s -> in flight", b.Round, desc))
+	li := len(n.putLog) - 1
+	n.mu.Unlock()
+	servedBefore := n.servedCount()
 	t0 := boltdb.VerifCrashWriteTxN(n.raw)
 	err := n.app.Put(ctx, b)
 	dt := boltdb.VerifCrashWriteTxN(n.raw) - t0
 	if err != nil {
+		class := "refused"
+		if errors.Is(err, errInjected) {
+			class = "underlying write failed"
+		} else if errors.Is(err, beacon.ErrBeaconAlreadyStored) {
+			class = "refused: already stored"
+		}
+		n.mu.Lock()
+		n.putLog[li] = fmt.Sprintf("Put round %d %s -> %s", b.Round, desc, class)
+		n.mu.Unlock()
 		if dt != 0 {
 			return false, fmt.Errorf("a rejected Put started %d write transactions", dt)
 		}
+		// nothing may reach the callbacks from a Put that failed
+		if n.waitServed(servedBefore+1, 150*time.Millisecond) {
+			n.failedPutServed = append(n.failedPutServed, fmt.Sprintf("Put round %d %s (%s)", b.Round, desc, class))
+		}
 		return false, nil
 	}
+	n.mu.Lock()
+	n.putLog[li] = fmt.Sprintf("Put round %d %s -> stored", b.Round, desc)
+	n.mu.Unlock()
 	*txs = append(*txs, dt)
 	n.attAccepted = append(n.attAccepted, emit.U(b.Round))
 	n.stored = append(n.stored, b.Round)
 	n.last = b
+	// the hand-over of a stored beacon is asynchronous: wait for it so that the order of events is the code's
+	n.waitServed(servedBefore+1, 10*time.Second)
+	n.mu.Lock()
 	prev := n.w.sigID(b.PreviousSig)
 	if n.w.sch.Name != crypto.DefaultSchemeID {
 		prev = 0 // schemeStore drops the previous signature for unchained schemes
 	}
 	n.ops = append(n.ops, fmt.Sprintf("PBeaconTx (mkB %d %d %d)", b.Round, n.w.sigID(b.Signature), prev))
+	n.mu.Unlock()
 	n.snap(fmt.Sprintf("beacon-%d", b.Round), "after", "")
 	return true, nil
 }
@@ -635,17 +752,23 @@ func (n *node) produce(k int, txs *[]int64) error {
 		// attempts the store must refuse: a duplicate of the head and a round that leaves a gap.
 		// If the store takes them the run goes on: the monitor sees the hole in the reloaded chain.
 		if i == 1 {
-			if _, err := n.put(&common.Beacon{Round: n.last.Round, Signature: n.last.Signature, PreviousSig: n.last.PreviousSig}, txs); err != nil {
+			if _, err := n.put(&common.Beacon{Round: n.last.Round, Signature: n.last.Signature, PreviousSig: n.last.PreviousSig}, txs, false); err != nil {
 				return err
 			}
-			if _, err := n.put(&common.Beacon{Round: r + 1, Signature: sig, PreviousSig: n.last.Signature}, txs); err != nil {
+			if _, err := n.put(&common.Beacon{Round: r + 1, Signature: sig, PreviousSig: n.last.Signature}, txs, false); err != nil {
+				return err
+			}
+			// and a good beacon whose bolt write fails
+			fsig := make([]byte, 96)
+			n.w.rng.Read(fsig)
+			if _, err := n.put(&common.Beacon{Round: n.last.Round + 1, Signature: fsig, PreviousSig: n.last.Signature}, txs, true); err != nil {
 				return err
 			}
 			r = n.last.Round + 1
 			sig = make([]byte, 96)
 			n.w.rng.Read(sig)
 		}
-		if _, err := n.put(&common.Beacon{Round: r, Signature: sig, PreviousSig: n.last.Signature}, txs); err != nil {
+		if _, err := n.put(&common.Beacon{Round: r, Signature: sig, PreviousSig: n.last.Signature}, txs, false); err != nil {
 			return err
 		}
 	}
@@ -793,6 +916,20 @@ func runScheme(rep *emit.Report, sch *crypto.Scheme, seed int64, root, tier stri
 	}
 	cops := append(append([]string{}, n.ops[:chainOps0]...), chainOps...)
 	add(fmt.Sprintf("Hist %s %s %s", emit.List(cops), emit.List(events), final.coqTail()), sch.Name+" whole history as events", true)
+	// the same lifetime seen from outside the callback store: committed writes and hand-overs
+	n.mu.Lock()
+	evs := append([]string{}, n.events...)
+	n.mu.Unlock()
+	add(fmt.Sprintf("CbTrace %s %s %s %s", emit.Bool(sch.Name == crypto.DefaultSchemeID), n.attHead, emit.List(n.attOffered), emit.List(evs)),
+		sch.Name+" callbackStore: order of committed writes and hand-overs to the callback", true)
+	rep.Count("callback/served-beacons")
+	for _, f := range n.failedPutServed {
+		rep.Fail("C13-callback-served-beacon-whose-put-failed", "a beacon was handed to the registered callback although its Put failed: "+f,
+			map[string]interface{}{"scheme": sch.Name, "put": f, "puts_offered": n.putLog})
+	}
+	if len(n.servedLog) == 0 {
+		return nil, nil, errors.New("the registered callback never received a beacon")
+	}
 	// the append store's decisions over its lifetime
 	add(fmt.Sprintf("Attempts %s %s %s %s", emit.Bool(sch.Name == crypto.DefaultSchemeID), n.attHead, emit.List(n.attOffered), emit.List(n.attAccepted)),
 		sch.Name+" appendStore/schemeStore decisions", true)
@@ -835,6 +972,16 @@ func monitor(rep *emit.Report, scheme string, s *snapshot, o obs, _ map[string][
 	in := map[string]interface{}{"scheme": scheme, "crash_point": s.name, "kind": s.kind, "rounds": o.rounds,
 		"finished": optDrec(o.fin), "current": optDrec(o.cur), "group_file": o.group, "share_file": o.share,
 		"share_on_group_polynomial": o.match, "restart": o.restart}
+	// chain: every beacon that had been handed to a callback (stream client, syncing peer) when the
+	// process died is in the store the restart finds
+	for _, sv := range s.served {
+		if id, ok := o.sigOf[sv.Round]; !ok || id != sv.Sig {
+			rep.Fail("C13-served-beacon-not-in-restarted-store",
+				fmt.Sprintf("beacon of round %d had been handed to the registered callback when the process died at %q, but the restarted chain store holds rounds %v", sv.Round, s.name, o.rounds),
+				map[string]interface{}{"scheme": scheme, "puts_offered": s.puts, "crash_point": s.name + " (" + s.kind + ": before the bolt transaction of that Put)", "served_to_callback": s.served, "restarted_store_rounds": o.rounds})
+			break
+		}
+	}
 	// chain: gap-free from 0 and able to take the next round
 	for i, r := range o.rounds {
 		if r != uint64(i) {
